@@ -166,13 +166,16 @@ func (sc *Scope) dataOf(e *SExpr, v Val) Term {
 		}
 		return sc.ex.loadLV(sc.st, v.P)
 	}
-	if len(v.Tup) > 0 || v.Fn != nil {
+	if len(v.Tup) > 0 || v.Fn != nil || v.Poison != "" {
 		sc.errorf(e, "not a data value")
 	}
 	if v.Origin != nil {
 		if _, live := sc.st[v.Origin.Cell]; live || sc.ex.globalInit[v.Origin.Cell].Sort != nil {
 			return sc.ex.viewOf(sc.st, v)
 		}
+	}
+	if v.T.Sort == nil {
+		sc.errorf(e, "no value")
 	}
 	return v.T
 }
@@ -184,6 +187,9 @@ func (sc *Scope) evalVal(e *SExpr) Val {
 			return Val{T: t}
 		}
 		if v, ok := sc.names[e.Name]; ok {
+			if v.Poison != "" {
+				sc.errorf(e, "%s is not defined on this path (%s)", e.Name, v.Poison)
+			}
 			return v
 		}
 		switch e.Name {
@@ -695,13 +701,21 @@ func (ex *Exec) needPrelude(name string) {
 		}
 		if strings.HasPrefix(l, "; sorts:") {
 			for _, r := range strings.Fields(l[len("; sorts:"):]) {
+				r = regexp.MustCompile(`_M$`).ReplaceAllString(r, "_"+sortTag(vc.sortByName("M")))
 				vc.sortByName(r)
 			}
 		}
 	}
 	// the coordinate sort M
-	msort := vc.sortByName("M").Name
-	text = strings.ReplaceAll(text, "{M}", msort)
+	msort := vc.sortByName("M")
+	text = strings.ReplaceAll(text, "{M}", msort.Name)
+	mtag := sortTag(msort)
+	text = regexp.MustCompile(`(A\d+(?:_A\d+)*)_M([_\s)])`).ReplaceAllString(text, "${1}_"+mtag+"${2}")
+	if msort.Kind == KReal {
+		text = strings.ReplaceAll(text, "(to_real_m ", "(+ 0.0 ")
+	} else {
+		text = strings.ReplaceAll(text, "(to_real_m ", "(to_real ")
+	}
 	forms := topLevelForms(text)
 	var keep []string
 	for _, form := range forms {
